@@ -613,6 +613,50 @@ def check(ctx):
         ks = [cs for cs in cases if cs[0]["inp"]["kind"] == k]
         ctx.sample({"kind": "enumerated " + k, "case": ks[len(ks) // 2]})
     trace_validate(ctx, 60000 if thorough else 4000)
+    check_big(ctx, thorough)
+
+
+def big_chunk(job):
+    """Listings longer than any buffer a reader may size its reads by (32 KiB and up): every device
+    is still there and the totals are the sums.  (The per-device mapping is what the other stages
+    decide; here the subject is completeness.)"""
+    w, ps = template()
+    n = job
+    bad = []
+    # 20-field diskstats lines (5.5 layout), whole disks only
+    devs = [("dm-%d" % i, 20, 0, [1000 + i] + [i % 7] * 16) for i in range(n)]
+    sim_c09.set_disks(w, devs, [d[0] for d in devs])
+    per = ps.disk_io_counters(perdisk=True, nowrap=False)
+    if sorted(per) != sorted(d[0] for d in devs):
+        bad.append("disk_io_counters(perdisk=True) lists %d of %d devices" % (len(per), n))
+    else:
+        wrong = [k for k, v in per.items() if v.read_count != 1000 + int(k[3:])]
+        if wrong:
+            bad.append("read_count of %d devices differs from its line (first: %s)" % (len(wrong), wrong[0]))
+        tot = ps.disk_io_counters(perdisk=False, nowrap=False)
+        if tot.read_count != sum(1000 + i for i in range(n)):
+            bad.append("system-wide read_count %r, sum over the %d disks %r" % (tot.read_count, n, sum(1000 + i for i in range(n))))
+    table = {"veth%07x" % i: [5000 + i] + [i % 5] * 15 for i in range(n)}
+    sim_c09.set_netdev(w, list(table.items()), "modern")
+    per = ps.net_io_counters(pernic=True, nowrap=False)
+    if sorted(per) != sorted(table):
+        bad.append("net_io_counters(pernic=True) lists %d of %d interfaces" % (len(per), n))
+    else:
+        tot = ps.net_io_counters(pernic=False, nowrap=False)
+        if tot.bytes_recv != sum(5000 + i for i in range(n)):
+            bad.append("system-wide bytes_recv %r, sum over the %d interfaces %r" % (tot.bytes_recv, n, sum(5000 + i for i in range(n))))
+    return bad
+
+
+def check_big(ctx, thorough):
+    sizes = [700, 2500, 9000] if thorough else [700, 2500]
+    for n, (st, val) in zip(sizes, forkpool.map_fork(big_chunk, sizes)):
+        if st != "ok":
+            raise core.Machinery("big-listing runner failed: %s" % (val,))
+        ctx.case(("big-listing", n))
+        for m in val:
+            ctx.disagree("conf:big-listing:" + m.split("(")[0].split(" ")[0], "%s  [%d devices / interfaces]" % (m, n), {"n": n})
+    ctx.cov.setdefault("replay", {})["big-listings"] = {"sizes": sizes}
 
 
 def main(prop, argv):
